@@ -7,7 +7,9 @@ Results are written to /verif/evidence-extra/<name>.json.
 
   coherence  Thm_Machine.tla: Machine.tla's interrupt check is Irq!Dispatch on its projection, catch-up is additive at
            machine level (timer, LCD, DMA, joypad latch, IF and the DMA's bus writes together), a halted CPU that nothing
-           wakes just lets time pass, a block step is its instruction steps.  (Specification only: no code involved.)
+           wakes just lets time pass, a block step is its instruction steps; MC_MachineMixed.tla: every system-level law of
+           MC_Machine still holds when each step may be an instruction step or a block step (a partly compiled program).
+           (Specification only: no code involved.)
   raster   Val_PpuRaster.tla: LCD registers, video RAM and OAM rewritten during horizontal / vertical blanking
            take effect from the next line on (split screens, per-line scroll, sprite multiplexing); line y of the
            presented frame is line y of Ppu.tla's composition of the state in force when line y began.
@@ -114,11 +116,15 @@ def raster_machine(tier):
 
 def coherence(tier):
     """Thm_Machine.tla: the whole-machine specification agrees with the device modules it instantiates."""
-    r = vlib.tlc("Thm_Machine", env={"DEEP": "1"} if tier == "thorough" else {}, check=False, timeout=5400, xmx="8g")
-    ok = "No error has been found" in r.text
-    bad = [] if ok else [{"verdict": "\n".join(l for l in r.text.splitlines() if "ssumption" in l or "Error" in l)[:1500]}]
-    return {"name": "coherence", "module": "Thm_Machine", "theorems": ["DispatchRefinesIrq", "CatchUpAdditive", "HaltedTime", "BlockIsInstructions"],
-            "wall_tlc_s": round(r.wall, 1), "mismatches": bad}
+    r, mx = vlib.tlc_parallel([dict(module="Thm_Machine", env={"DEEP": "1"} if tier == "thorough" else {}, check=False, timeout=5400, xmx="8g"),
+                               dict(module="MC_MachineMixed", workers=4, check=False, timeout=5400)])
+    bad = []
+    for name, x in (("Thm_Machine", r), ("MC_MachineMixed", mx)):
+        if "No error has been found" not in x.text:
+            bad.append({"verdict": name + ": " + "\n".join(l for l in x.text.splitlines() if "ssumption" in l or "Error" in l or "violated" in l)[:1500]})
+    return {"name": "coherence", "modules": ["Thm_Machine", "MC_MachineMixed"],
+            "theorems": ["DispatchRefinesIrq", "CatchUpAdditive", "HaltedTime", "BlockIsInstructions"],
+            "mixed_stepping_states": mx.distinct, "wall_tlc_s": round(r.wall, 1), "mismatches": bad}
 
 
 EXTRAS = {"raster": raster, "raster-machine": raster_machine, "coherence": coherence}
